@@ -686,6 +686,33 @@ Proof.
   - right; left. apply Hn. exact H.
 Qed.
 
+(* The same for ANY classification of header sets (F: forbids storing, R: demands revalidation,
+   N: no freshness information) that the library respects.  For the header sets the model knows by
+   number only (PRaw: other letter case, white space, quoted arguments, several Cache-Control lines,
+   which the loader joins before asking the library) the classification is the RFC verdict written
+   into the recorded table by the harness, and `Run.cc_table_respects_headers` checks exactly the
+   three premises on every run. *)
+Theorem load_no_reuse_verdict fuel cfg (F R N : policy -> Prop) ops u k d st' :
+  link_free_ops ops ->
+  (forall p, F p -> cc_store cfg p = false) ->
+  (forall p, R p -> cc_nocache cfg p = true) ->
+  (forall p, N p -> cc_lifetime cfg p = None) ->
+  load fuel cfg (run fuel cfg ops) u = (st', Ok d) ->
+  route_of cfg u = ToHttp k ->
+  assoc String.eqb k (embedded cfg) = None ->
+  (forall pre u0 post p,
+     ops = pre ++ Load u0 :: post -> route_of cfg u0 = ToHttp k ->
+     served pre k = RResp 200 (BJson d) p None -> F p \/ R p \/ N p) ->
+  exists p, served ops k = RResp 200 (BJson d) p None /\
+            reqlog st' = (CHttp, k, elapsed ops, RResp 200 (BJson d) p None) :: reqlog (run fuel cfg ops).
+Proof.
+  intros Hlf Hf Hv Hn Hl Hr Hemb Hall. apply (load_no_reuse fuel cfg ops u k d st' Hlf Hl Hr Hemb).
+  intros pre u0 post p H1 H2 H3. destruct (Hall pre u0 post p H1 H2 H3) as [H|[H|H]].
+  - left. unfold storable. rewrite (Hf p H). reflexivity.
+  - left. unfold storable. rewrite (Hv p H). apply andb_false_r.
+  - right; left. apply Hn. exact H.
+Qed.
+
 (* ---- C19_failures ---- *)
 Lemma http_step_err_cache cfg st u st' t : http_step cfg st u st' (Err t) -> cache st' = cache st.
 Proof. intros H. inversion H; subst; reflexivity. Qed.
